@@ -12,7 +12,7 @@ from simkit.runner import RunOutcome
 LIMIT_NAMES = ("r1", "r2")
 
 
-def gen_handle_program(ch: Choices, avoid_known: bool) -> RawProgram:
+def gen_handle_program(ch: Choices, avoid_known: bool, ready_only: bool = False) -> RawProgram:
     """A handle-passing workflow: one or two handles forked into several sibling tasks whose
     other arguments become ready at different times; some tasks carry limits."""
     lines = [HEADER.format(ns="vp"), "from simkit.proghandle import VH\n\n"]
@@ -53,7 +53,7 @@ def gen_handle_program(ch: Choices, avoid_known: bool) -> RawProgram:
                 break
             h = fresh[ch.choice(len(fresh), "pick-fresh-h")]
         used[h] = used.get(h, 0) + 1
-        r = ch.choice(3, "arg-kind")
+        r = 0 if ready_only else ch.choice(3, "arg-kind")
         lazy_other_arg.setdefault(h, []).append(not (r == 0 or (r == 2 and not ints)))
         if r == 0 or (r == 2 and not ints):
             arg = str(ch.choice(5, "lit"))
@@ -123,7 +123,10 @@ class C07(EngineACheck):
             names = LIMIT_NAMES
             shape = "twins"
         elif mode <= 2:
-            prog = gen_handle_program(ch, avoid_known=(mode >= 1))
+            # (half of the fan-out programs pass only ready arguments beside the handle: their
+            # sibling consumers arrive in creation order, which the known finding does not cover)
+            prog = gen_handle_program(ch, avoid_known=(mode >= 1),
+                                      ready_only=(mode == 0 and ch.coin(0.5, "ready-args-only")))
             out.probe("handle_programs")
             shape = ("handle-fanout" if prog.fanout_lazy else
                      "handle-fanout-ready-args" if prog.fanout else "handle-chain")
